@@ -3,7 +3,7 @@
 //! what they return into model observations.
 
 use crate::model::{MVal, Obs, Op, Origin};
-use crate::tracked::{T24, Zst};
+use crate::tracked::{Big, T24, Zst};
 use crate::{alloc, viol};
 use roto::{FileTree, List, NoCtx, Package, RotoString, Runtime, TypedFunc, Val, Value, library};
 use serde::{Deserialize, Serialize};
@@ -18,10 +18,11 @@ pub enum ElemKind {
     T24,
     Zst,
     Nested,
+    Big,
 }
 
 impl ElemKind {
-    pub const ALL: [ElemKind; 6] = [ElemKind::U8, ElemKind::U64, ElemKind::Str, ElemKind::T24, ElemKind::Zst, ElemKind::Nested];
+    pub const ALL: [ElemKind; 7] = [ElemKind::U8, ElemKind::U64, ElemKind::Str, ElemKind::T24, ElemKind::Zst, ElemKind::Nested, ElemKind::Big];
     pub fn tyname(self) -> &'static str {
         match self {
             ElemKind::U8 => "u8",
@@ -30,6 +31,7 @@ impl ElemKind {
             ElemKind::T24 => "T24",
             ElemKind::Zst => "Zst",
             ElemKind::Nested => "List[u64]",
+            ElemKind::Big => "Big",
         }
     }
     pub fn suffix(self) -> &'static str {
@@ -40,6 +42,7 @@ impl ElemKind {
             ElemKind::T24 => "t24",
             ElemKind::Zst => "zst",
             ElemKind::Nested => "nest",
+            ElemKind::Big => "big",
         }
     }
 }
@@ -138,6 +141,22 @@ impl Elem for Val<T24> {
     }
     fn debug(&self) -> String {
         format!("{:?}", self.0)
+    }
+}
+
+impl Elem for Val<Big> {
+    const KIND: ElemKind = ElemKind::Big;
+    fn from_m(v: &MVal, _: &Inner) -> Self {
+        match v {
+            MVal::Obj(p) => Val(Big::new(*p)),
+            _ => Val(Big::new(u64::MAX - 1)),
+        }
+    }
+    fn to_m(&self, _: &mut Inner) -> Result<MVal, String> {
+        self.0.checked_payload().map(MVal::Obj)
+    }
+    fn debug(&self) -> String {
+        format!("Big({})", self.0.inner.payload())
     }
 }
 
@@ -271,6 +290,7 @@ pub fn helper_runtime() -> Runtime<NoCtx> {
     Runtime::from_lib(library! {
         #[clone] type T24 = Val<T24>;
         #[clone] type Zst = Val<Zst>;
+        #[clone] type Big = Val<Big>;
     })
     .expect("helper runtime")
 }
@@ -319,6 +339,7 @@ pub struct Warm {
     pub t24: Arc<Fns<Val<T24>>>,
     pub zst: Arc<Fns<Val<Zst>>>,
     pub nest: Arc<Fns<List<u64>>>,
+    pub big: Arc<Fns<Val<Big>>>,
     pub sum_u64: F<fn(List<u64>) -> u64>,
     pub join_str: F<fn(List<RotoString>, RotoString) -> RotoString>,
 }
@@ -345,6 +366,7 @@ pub fn warm() -> Warm {
         t24: Arc::new(Fns::load(&mut pkg)),
         zst: Arc::new(Fns::load(&mut pkg)),
         nest: Arc::new(Fns::load(&mut pkg)),
+        big: Arc::new(Fns::load(&mut pkg)),
         sum_u64: pkg.get_function("sum_u64").expect("sum_u64"),
         join_str: pkg.get_function("join_str").expect("join_str"),
         _rt: rt,
@@ -381,6 +403,11 @@ impl WarmSel for Val<T24> {
 impl WarmSel for Val<Zst> {
     fn fns(w: &Warm) -> Arc<Fns<Self>> {
         w.zst.clone()
+    }
+}
+impl WarmSel for Val<Big> {
+    fn fns(w: &Warm) -> Arc<Fns<Self>> {
+        w.big.clone()
     }
 }
 impl WarmSel for List<u64> {
